@@ -1,5 +1,6 @@
 import Driver.Common
 import QlibcModel.Encode.Model
+import QlibcModel.Encode.MakewordRaw
 open Qlibc Qlibc.Encode
 
 namespace Driver.Encode
@@ -33,7 +34,11 @@ def step (_ : Unit) (ws : List String) : Unit × String :=
         | .ok b => let e := hexEncode b; s!"{hx e} {showDec (hexDecodeRaw (e ++ [0]))}"
         | .error e => e
     | ["makeword", x, st] => match arg x, arg st with
-        | .ok b, .ok [s] => let (w, r) := makeword b s; s!"{hx w} {hx r}"
+        | .ok b, .ok [s] =>
+          -- the raw-buffer form on the C string held in `b` (the bytes before the first NUL)
+          match makewordRaw (b.takeWhile (· != 0) ++ [0]) s with
+          | .ok (w, r) => s!"{hx w} {hx r}"
+          | .error f => faultStr f
         | _, _ => "bad-op"
     | ["query", x, eq, sep] => match arg x, arg eq, arg sep with
         | .ok b, .ok [e], .ok [s] => showPairs (parseQueries b e s)
